@@ -30,6 +30,53 @@ Theorem c14_breaker_scope_closed : c14_scope_closed = true.
 Proof. vm_compute. reflexivity. Qed.
 Print Assumptions c14_breaker_scope_closed.
 
+(* "no liquidation ... is started for it": while the breaker of the governing app is enabled the liquidate
+   MESSAGES refuse as the sweeps do.  Generation 1 (MsgLiquidateVault, MsgLiquidateBorrow): the regenerated
+   row of the handler has the breaker check before any write - the error is returned on the untouched
+   store.  Generation 2 (MsgLiquidateInternalKeeper): the handler dispatches to the two per-position
+   functions of the block sweep; each is a row of Gen/SweepGuards.v that starts nothing under the breaker
+   and writes nothing before reading it (c14_sweeps_skip), and the handler's regenerated call chain names
+   both.  PARTIAL for generation 2: that the handler does nothing else is read off the (opaque) row
+   [IWriteSigner nested:LiquidateIndividualVault] and the reviewed dispatch list, and cross-checked by the
+   control matrix (TestC14X). *)
+Theorem c14_liquidation_msgs_refuse_partial : forall n, In n liquidation_msg_names ->
+  match assoc n liquidate_msg_dispatch with
+  | None => exists h, find_handler n = Some h /\
+      forall (store : Type) (wr : string -> store -> store) (c : octx) (s : store), c_breaker c = true ->
+        exists code, exec wr helper_rows scan_fuel c (h_items h) s = RunErr s code
+  | Some fs => forall f, In f fs ->
+      (exists r, In r sweep_table /\ s_name r = f /\ sweep_starts r true = false /\ s_write_before r = false) /\
+      (exists h u, find_handler n = Some h /\ In u (h_price h) /\ pu_callee u = f)
+  end.
+Proof.
+  assert (K : forallb (fun n => match assoc n liquidate_msg_dispatch with
+                                | Some fs => dispatch_gated n fs
+                                | None => rejects_under_breaker n end) liquidation_msg_names = true)
+    by (vm_compute; reflexivity).
+  intros n Hn. rewrite forallb_forall in K. specialize (K n Hn).
+  destruct (assoc n liquidate_msg_dispatch) as [fs|].
+  - intros f Hf. unfold dispatch_gated in K. apply andb_prop in K. destruct K as [K1 K2].
+    rewrite forallb_forall in K1. specialize (K1 f Hf). apply existsb_exists in K1. destruct K1 as [r [Hr Kr]].
+    apply andb_prop in Kr. destruct Kr as [En Ok]. apply String.eqb_eq in En. split.
+    + exists r. split; [exact Hr|]. split; [exact En|].
+      unfold sweep_row_ok, sweep_starts in *.
+      destruct (s_gate r); try discriminate; destruct (s_write_before r); try discriminate; split; reflexivity.
+    + destruct (find_handler n) as [h|]; [|discriminate].
+      rewrite forallb_forall in K2. specialize (K2 f Hf). apply existsb_exists in K2. destruct K2 as [u [Hu Eu]].
+      apply String.eqb_eq in Eu. exists h, u. split; [reflexivity|]. split; [exact Hu|exact Eu].
+  - unfold rejects_under_breaker in K. destruct (find_handler n) as [h|]; [|discriminate].
+    exists h. split; [reflexivity|]. intros store wr c s Hb.
+    exact (scan_strict_no_write store wr helper_rows is_breaker_guard c (breaker_fires c Hb) scan_fuel _ s K).
+Qed.
+Print Assumptions c14_liquidation_msgs_refuse_partial.
+
+(* closed world of the extended control matrix: every msgServer method of the liquidation, auction, esm,
+   rewards, collector and tokenmint modules is either a liquidate message (above) or in the reviewed list
+   of handlers the breaker clause does not name *)
+Theorem c14_x_breaker_scope_closed : c14_x_scope_closed = true.
+Proof. vm_compute. reflexivity. Qed.
+Print Assumptions c14_x_breaker_scope_closed.
+
 (* After emergency shutdown: every vault handler that can reach bank.MintCoins (a call-graph fact
    computed by the translator) returns an error before any write. *)
 Theorem c14_esm_no_mint : forall h, In h esm_mint_scope ->
@@ -99,7 +146,11 @@ Print Assumptions c14_sweeps_listed.
    PARTIAL: liquidation.MsgLiquidateBorrow and auction.MsgPlaceDutchLendBid are excluded - the
    translator finds price errors assigned to _ on their paths (c14_price_unverified_sites); a
    price lookup inside a conditional block is covered by the call-site table, not by [exec].
-   (A raw GetTwa read whose found flag is discarded counts as such a site: C14-F1, fixed.) *)
+   (A raw GetTwa read whose found flag is discarded counts as such a site: C14-F1, fixed.)
+   Both excluded handlers are sent by the extended control matrix (TestC14X, same-pool and cross-pool
+   borrows); the discarded errors of the health re-checks changed outcomes and were repaired (C14-F2); the
+   sites that remain (CalcAssetPrice in UpdateLockedBorrows / CreteNewBorrow) follow a checked lookup of the
+   same feeds in the same message. *)
 Theorem c14_price_fail_closed_partial :
   (forall t, (match t with Some tw => active tw = false | None => True end) ->
              price_in_force t = Err 1 /\ get_latest t = Err 1) /\
@@ -127,6 +178,17 @@ Example c14_scopes_nonempty :
   forallb (fun n => existsb (fun h => String.eqb (h_name h) n && negb (Nat.eqb (length (h_price h)) 0)) price_scope)
     ["vault.MsgCreate"; "vault.MsgWithdraw"; "vault.MsgDraw"; "lend.Borrow"; "lend.Lend"; "liquidation.MsgLiquidateVault"] = true.
 Proof. vm_compute. repeat split; reflexivity. Qed.
+
+(* the liquidate messages: three in scope, both forms of the statement occur; the predicate refuses a
+   liquidation that succeeds under the breaker and accepts one that fails *)
+Example c14_liquidation_msgs_nonvacuous :
+  length liquidation_msg_names = 3%nat /\ assoc "liquidation.MsgLiquidateVault" liquidate_msg_dispatch = None /\
+  (exists fs, assoc "liquidationsV2.MsgLiquidateInternalKeeper" liquidate_msg_dispatch = Some fs /\ length fs = 2%nat) /\
+  predict_ctrl "liquidation.MsgLiquidateVault" false 0 0 true = 5%Z /\ predict_ctrl "liquidation.MsgLiquidateBorrow" false 0 0 true = 2%Z /\
+  holds_C14 "liquidationsV2.MsgLiquidateInternalKeeper" true 0 true true = false /\
+  holds_C14 "liquidationsV2.MsgLiquidateInternalKeeper" true 0 false false = true /\
+  holds_C14 "liquidationsV2.MsgLiquidateExternalKeeper" true 0 true true = true.
+Proof. vm_compute. repeat split; try reflexivity. eexists; split; reflexivity. Qed.
 
 (* concrete runs of the regenerated rows: breaker -> code 2; ESM -> code 3 (checked first);
    withdraw under ESM passes inside the cool-off and returns code 4 after it; no control -> ok *)
